@@ -15,7 +15,7 @@ jobs = [(p, c) for p in patches for c in checks]
 def run(j):
     p, c = j
     return p, c, selftest._one(c, "/repo", {"name": os.path.basename(p) if os.environ.get("EQ_ROOT") else os.path.basename(os.path.dirname(p)), "patch": p, "expect": "silent"}, "/var/tmp")
-with ThreadPoolExecutor(max_workers=5) as ex:
+with ThreadPoolExecutor(max_workers=int(os.environ.get("EQ_WORKERS", "5"))) as ex:
     res = list(ex.map(run, jobs))
 for p in patches:
     alarms = {c: r.get("reported") for pp, c, r in res if pp == p and r["status"] == "FAILED" and r.get("reported")}
